@@ -229,7 +229,13 @@ pub fn run(ctx: &Ctx, rep: &mut Report) {
                 let newcomer = u.principal();
                 let other = u.principal();
                 let set = gen_wellformed_set(&mut rng, &mut ring, 3);
-                let g = Gw::deploy(&mut u, &owner0, &operator0, rng.bytes32(), 0, 1, &[set.clone()]);
+                let old_set = gen_wellformed_set(&mut rng, &mut ring, 3);
+                let mut g = Gw::deploy(&mut u, &owner0, &operator0, rng.bytes32(), 0, 1, &[old_set.clone()]);
+                // one honest rotation, so that an older but still retained set exists
+                if !g.rotate_honest(&mut u, &ring, &set) {
+                    rep.foreign("setup-rotation-refused");
+                    continue;
+                }
                 let other_hash = u.env.deployer().upload_contract_wasm(Bytes::from_slice(&u.env, TRIVIAL_WASM));
                 let ga = g.addr.clone();
                 let owners = match run_history(rep, &mut u, &owner0, history, &|n| { let (a, n) = (ga.clone(), n.clone()); Rc::new(move |env: &Env| flat(OwnableClient::new(env, &a).try_transfer_ownership(&n))) }, &|u| { let a = ga.clone(); u.query(move |env| OwnableClient::new(env, &a).owner()) }, "gateway.owner") {
@@ -270,9 +276,25 @@ pub fn run(ctx: &Ctx, rep: &mut Report) {
                         }
                     },
                 ];
+                let older_ep = {
+                    let cand = gen_wellformed_set(&mut rng, &mut ring, 2);
+                    let cand2 = gen_wellformed_set(&mut rng, &mut ring, 2);
+                    let plan = plan_honest(&ring, &g.model.domain, &old_set, &cand.rotation_data_hash(), &all_slots(&old_set));
+                    let plan2 = plan_honest(&ring, &g.model.domain, &old_set, &cand2.rotation_data_hash(), &all_slots(&old_set));
+                    let (a, a2) = (g.addr.clone(), g.addr.clone());
+                    Ep {
+                        name: "gateway.rotate_signers(bypass,older-retained-set)".into(),
+                        role: "operator",
+                        call: Rc::new(move |env: &Env| flat(AxelarGatewayClient::new(env, &a).try_rotate_signers(&sdk_signers(env, &cand), &sdk_proof(env, &plan), &true))),
+                        other_args: Some(Rc::new(move |env: &Env| flat(AxelarGatewayClient::new(env, &a2).try_rotate_signers(&sdk_signers(env, &cand2), &sdk_proof(env, &plan2), &true)))),
+                        beneficiary: None,
+                        prep: None,
+                    }
+                };
                 for ep in &eps {
                     matrix(rep, &mut u, ep, &owner, &owners[..owners.len() - 1], Some(&operator), &stranger, history);
                 }
+                matrix(rep, &mut u, &older_ep, &operator, &operators[..operators.len() - 1], Some(&owner), &stranger, history);
                 for ep in &op_eps {
                     matrix(rep, &mut u, ep, &operator, &operators[..operators.len() - 1], Some(&owner), &stranger, history);
                 }
@@ -504,7 +526,7 @@ pub fn run(ctx: &Ctx, rep: &mut Report) {
         req.push(format!("principal:{}", p));
     }
     for e in [
-        "gateway.transfer_ownership", "gateway.upgrade", "gateway.migrate", "gateway.transfer_operatorship", "gateway.rotate_signers(bypass)",
+        "gateway.transfer_ownership", "gateway.upgrade", "gateway.migrate", "gateway.transfer_operatorship", "gateway.rotate_signers(bypass)", "gateway.rotate_signers(bypass,older-retained-set)",
         "gas-service.transfer_ownership", "gas-service.upgrade", "gas-service.migrate", "gas-service.collect_fees", "gas-service.refund",
         "operators.transfer_ownership", "operators.upgrade", "operators.migrate", "operators.add_operator", "operators.remove_operator",
         "its.transfer_ownership", "its.upgrade", "its.migrate", "its.set_trusted_chain", "its.remove_trusted_chain",
@@ -514,6 +536,6 @@ pub fn run(ctx: &Ctx, rep: &mut Report) {
         req.push(format!("ep:{}", e));
     }
     rep.notes.insert("required".into(), json!(req));
-    rep.notes.insert("bounds".into(), json!({"contracts": CONTRACTS, "role_histories": HISTORIES, "entry_points": 28, "principals": ["holder", "each former holder", "holder of another role", "beneficiary named in the arguments", "stranger", "nobody", "holder but authorising other arguments"]}));
-    rep.notes.insert("rule".into(), json!("finite matrix enumerated completely: 28 administrative entry points (6 contracts) x 5 role-transfer histories (fresh, A->B, A->B->A, A->A, A->B->C; performed with the exact current holder's authorisation and checked with the role getters) x up to 8 principals. For each cell the authorisation forest the code asks for is recorded, then the call is replayed at a checkpoint with the forest signed by the chosen principal (or withheld, or recorded for other arguments); only the current holder's exact authorisation may succeed, every refused call is diffed against the pre-state. distinct = (entry point, history, principal class, outcome)"));
+    rep.notes.insert("bounds".into(), json!({"contracts": CONTRACTS, "role_histories": HISTORIES, "entry_points": 29, "principals": ["holder", "each former holder", "holder of another role", "beneficiary named in the arguments", "stranger", "nobody", "holder but authorising other arguments"]}));
+    rep.notes.insert("rule".into(), json!("finite matrix enumerated completely: 29 administrative entry points (the delay bypass both with the newest and with an older retained signer set) (6 contracts) x 5 role-transfer histories (fresh, A->B, A->B->A, A->A, A->B->C; performed with the exact current holder's authorisation and checked with the role getters) x up to 8 principals. For each cell the authorisation forest the code asks for is recorded, then the call is replayed at a checkpoint with the forest signed by the chosen principal (or withheld, or recorded for other arguments); only the current holder's exact authorisation may succeed, every refused call is diffed against the pre-state. distinct = (entry point, history, principal class, outcome)"));
 }
